@@ -27,7 +27,7 @@ pub fn packet_bytes(rng: &mut Rng) -> Vec<u8> {
         b[0] = rng.byte();
     }
     b[1] = pt;
-    let lf = if rng.chance(19, 20) { words as u16 } else { rng.below(8) as u16 };
+    let lf = if rng.chance(18, 20) { words as u16 } else if rng.chance(1, 2) { rng.below(8) as u16 } else { *rng.pick(&[0xffffu16, 0xfffe, 0x8000, 0x7fff, 0x00ff, 0x0100, 0x4000, 0x3fff]) };
     b[2] = (lf >> 8) as u8;
     b[3] = lf as u8;
     let style = rng.below(4);
@@ -169,7 +169,7 @@ impl Gen {
                 let c = any_cfg(rng, "C03");
                 Some(J::obj(vec![("prop", J::s(&prop)), ("kind", J::s("cfg")), ("cfg", c.to_json())]))
             }
-            "C02" | "C03" | "C04" | "C05" | "C06" | "C07" | "C14" | "C16" | "C17" => {
+            "C02" | "C03" | "C04" | "C05" | "C06" | "C07" | "C14" | "C16" | "C17" | "C20" => {
                 let c = any_cfg(rng, &prop);
                 Some(J::obj(vec![("prop", J::s(&prop)), ("kind", J::s("cfg")), ("cfg", c.to_json())]))
             }
@@ -320,7 +320,7 @@ pub fn leaf_cfg(rng: &mut Rng, kind: u64) -> Cfg {
             for _ in 0..nl {
                 name.push(if rng.chance(1, 15) { 'é' } else { (b'A' + rng.below(26) as u8) as char });
             }
-            let dl = if rng.chance(1, 8) { rng.below(20) as usize } else { 4 * rng.below(6) as usize };
+            let dl = if rng.chance(1, 8) { rng.below(20) as usize } else if rng.chance(1, 7) { 4 * (55 + rng.below(150)) as usize } else { 4 * rng.below(6) as usize };
             Cfg::App { ssrc: u32v(rng), padding: pad(rng), subtype: if rng.chance(1, 8) { rng.byte() } else { rng.below(32) as u8 }, name, data: bytes(rng, dl) }
         }
         1 => {
@@ -364,7 +364,7 @@ pub fn leaf_cfg(rng: &mut Rng, kind: u64) -> Cfg {
             Cfg::Sdes { padding: pad(rng), chunks }
         }
         5 => {
-            let dl = if rng.chance(1, 8) { rng.below(20) as usize } else { 4 * rng.below(6) as usize };
+            let dl = if rng.chance(1, 8) { rng.below(20) as usize } else if rng.chance(1, 7) { 4 * (55 + rng.below(150)) as usize } else { 4 * rng.below(6) as usize };
             Cfg::Unknown { padding: pad(rng), type_: if rng.chance(1, 2) { 207 + rng.below(40) as u8 } else { rng.byte() }, count: if rng.chance(1, 8) { rng.byte() } else { rng.below(32) as u8 }, data: bytes(rng, dl) }
         }
         _ => {
